@@ -1,5 +1,5 @@
 import Driver.CifArg
-import CifModel.Model.ParseCBDup
+import CifModel.Model.ParseCBRec
 /-
   family `pcb` (C15):  pcb doc <hex> toks <T…>* prog <k>:<resp>…
      ↦ pc S rc= n= log= <events> cif= <canonical dump> N rc= n= log= <events>
@@ -103,16 +103,26 @@ def handle : Handler := fun args =>
       let toks ← tokWords.mapM parseTok
       let tbl ← pw.mapM parseProgEntry
       let p := progOf tbl
-      -- the model with the duplicate diagnostics; names and codes compared after ASCII case folding
-      let (logS, rcS, cif) := parseCBD p lowerAscii true toks
-      let (logN, rcN, _) := parseCBD p lowerAscii false toks
-      -- cross-check: without a diagnostic it must be the model the C15 theorems are about
+      -- the model with the duplicate diagnostics and the token-level recoveries (Model/ParseCBRec.lean); names and codes compared
+      -- after ASCII case folding
+      let (logS, rcS, cif) := parseCBR p lowerAscii true toks
+      let (logN, rcN, _) := parseCBR p lowerAscii false toks
       let isErr : Ev → Bool := fun e => match e with | .keyword (0 :: _) => true | _ => false
+      let isRec : Ev → Bool := fun e => match e with
+        | .keyword (0 :: code :: _) => !(code == Gen.ErrCodes.CIF_DUP_ITEMNAME || code == Gen.ErrCodes.CIF_DUP_BLOCKCODE
+            || code == Gen.ErrCodes.CIF_DUP_FRAMECODE)
+        | _ => false
+      -- cross-check 1: without a recovery diagnostic it must be the model with the duplicate diagnostics only
+      let (logSD, rcSD, cifD) := parseCBD p lowerAscii true toks
+      let (logND, rcND, _) := parseCBD p lowerAscii false toks
+      let sameSD := logS.any isRec || (showRun logS rcS ++ CifArg.showCanonCif cif == showRun logSD rcSD ++ CifArg.showCanonCif cifD)
+      let sameND := logN.any isRec || (showRun logN rcN == showRun logND rcND)
+      -- cross-check 2: without any diagnostic it must be the model the C15 theorems are about
       let (logS0, rcS0, cif0) := parseCB p true toks
       let (logN0, rcN0, _) := parseCB p false toks
       let sameS := logS.any isErr || (showRun logS rcS ++ CifArg.showCanonCif cif == showRun logS0 rcS0 ++ CifArg.showCanonCif cif0)
       let sameN := logN.any isErr || (showRun logN rcN == showRun logN0 rcN0)
-      if !(sameS && sameN) then pure "pc MODELS-DIFFER"
+      if !(sameS && sameN && sameSD && sameND) then pure "pc MODELS-DIFFER"
       else pure ("pc S " ++ showRun logS rcS ++ " cif=" ++ CifArg.showCanonCif cif ++ " N " ++ showRun logN rcN)
   | _ => none
 
